@@ -253,7 +253,7 @@ fn data_value() -> Message<Vec<u8>> {
 fn hidden_value() -> AVP {
     // three MD5 blocks: the chaining over later blocks is where a cached key would be used
     let a = bridge::avp_to_crate(&SAvp::Plain { attr: 8, val: SVal::Str(vgen::utf8_of_len(33)) }).unwrap();
-    a.hide(b"secret", &RandomVector { value: [1, 2, 3, 4] }, &[9, 9, 9], &[7u8; 16])
+    a.hide(b"secret", &RandomVector::from([1, 2, 3, 4]), &[9, 9, 9], &[7u8; 16])
 }
 
 /// Run call `i` and return a digest of everything observable about its result.
@@ -298,19 +298,24 @@ pub fn call<K: Tick>(i: usize, tick: &K) -> String {
         }
         10 => {
             tick.tick();
-            format!("{:?}", hidden_value().reveal(b"secret", &RandomVector { value: [1, 2, 3, 4] }))
+            // another AVP kind hidden with the same secret and random vector as call 9's (a key
+            // cached per (secret, random vector) would be wrong for it), then both revealed
+            let other = bridge::avp_to_crate(&SAvp::Plain { attr: 7, val: SVal::Bytes(ramp(20)) }).unwrap();
+            let h = other.hide(b"secret", &RandomVector::from([1, 2, 3, 4]), &[4, 4], &[6u8; 16]);
+            let shown = format!("{h:?}");
+            format!("{shown} / {:?} / {:?}", h.reveal(b"secret", &RandomVector::from([1, 2, 3, 4])), hidden_value().reveal(b"secret", &RandomVector::from([1, 2, 3, 4])))
         }
         _ => {
             tick.tick();
             // a different secret of the same length as the other calls', a value of three blocks,
             // hidden and revealed with it, and the first call's value revealed with the wrong key
             let a = bridge::avp_to_crate(&SAvp::Plain { attr: 7, val: SVal::Bytes(ramp(40)) }).unwrap();
-            let h = a.hide(b"Secret", &RandomVector { value: [9, 8, 7, 6] }, &[5], &[3u8; 16]);
+            let h = a.hide(b"Secret", &RandomVector::from([9, 8, 7, 6]), &[5], &[3u8; 16]);
             let shown = format!("{h:?}");
             format!(
                 "{shown} / {:?} / {:?}",
-                h.reveal(b"Secret", &RandomVector { value: [9, 8, 7, 6] }),
-                hidden_value().reveal(b"Secret", &RandomVector { value: [1, 2, 3, 4] })
+                h.reveal(b"Secret", &RandomVector::from([9, 8, 7, 6])),
+                hidden_value().reveal(b"Secret", &RandomVector::from([1, 2, 3, 4]))
             )
         }
     });
@@ -523,9 +528,9 @@ fn silence_sweep(ctx: &mut Ctx) {
             c.write(&mut w);
             let mut r = rl2tp::common::SliceReader::from(&w.data[..]);
             let _ = AVP::try_read_greedy(&mut r);
-            let h = c.clone().hide(b"s", &RandomVector { value: [0; 4] }, &[1, 2], &[0; 16]);
-            let _ = h.clone().reveal(b"s", &RandomVector { value: [0; 4] });
-            let _ = h.reveal(b"t", &RandomVector { value: [0; 4] });
+            let h = c.clone().hide(b"s", &RandomVector::from([0; 4]), &[1, 2], &[0; 16]);
+            let _ = h.clone().reveal(b"s", &RandomVector::from([0; 4]));
+            let _ = h.reveal(b"t", &RandomVector::from([0; 4]));
         });
         n += 1;
     }
@@ -594,7 +599,7 @@ fn silence_sweep(ctx: &mut Ctx) {
             let plain = [&lo.to_be_bytes()[..], &gen::payload_for(attr, 14, gen::Content::Valid)].concat();
             let value = spec::encrypt(attr, &plain, b"k", &[1, 2, 3, 4]);
             let h = AVP::Hidden(rl2tp::avp::types::Hidden { attribute_type: attr, value });
-            let _ = guarded(|| h.reveal(b"k", &RandomVector { value: [1, 2, 3, 4] }).map(|a| format!("{a:?}")).map_err(|e| e.to_string()));
+            let _ = guarded(|| h.reveal(b"k", &RandomVector::from([1, 2, 3, 4])).map(|a| format!("{a:?}")).map_err(|e| e.to_string()));
             n += 1;
         }
     }
